@@ -205,4 +205,6 @@ def run(ck, ix, tier):
         ck.check(ok, "G-PROV", "Context.from_context|passed-defaults-override-declared", fi.loc(a),
                  "dict(context.defaults, **defaults): passed values override declared defaults",
                  f"`{norm(c)}` does not let the passed defaults override the context's declared defaults")
+    from .C11 import context_copy_rule
+    context_copy_rule(ck, ix)
     return EXPLANATION
